@@ -5,8 +5,9 @@ SPEC = {
     "props_module": "AgdbCrash.Props.C05",
     "audit_file": "AgdbCrash/Audit/C05.lean",
     "full_theorems": ["C05_frame", "C05_optimize_compact", "C05_vec_shrink_preserves",
-                      "C05_vec_from_storage_capacity_irrelevant", "C05_vec_open_image"],
-    "partial_theorems": ["C05_open_image_partial"],
+                      "C05_vec_from_storage_capacity_irrelevant", "C05_vec_open_image",
+                      "C05_vecW_open_image", "C05_graph_open_image", "C05_map_open_image"],
+    "partial_theorems": ["C05_open_image_partial", "C05_store_open_image_partial"],
     "counterexamples": [],
     "driver": "crashmodel",
     "harness_bin": "harness_crash",
@@ -16,12 +17,17 @@ SPEC = {
                    "vector layout (length + fixed-size elements) from_storage/value rebuild exactly the live length and elements for every content "
                    "and capacity (C05_vec_open_image), the over-estimated capacity is irrelevant and shrink_to_fit preserves every observation "
                    "(C05_vec_shrink_preserves). The full open_image statement over all layouts is kept as C05_open_image_statement and proved for "
-                   "[vecLayout] only (C05_open_image_partial). Tie: generated histories on Db, DbFile, DbMemory and DbAny(x3) with reopen / optimize / "
+                   "[vecLayout] only (C05_open_image_partial); at the level of the whole store (index->bytes, after ANY of the maintenance operations, "
+                   "composed with the frame lemma) vectors of any fixed element width, GraphDataStorage (index record + four i64 slot vectors) and "
+                   "DbMapData (MapDataIndex + states/keys/values vectors) rebuild exactly their live length and every slot "
+                   "(C05_vecW_open_image, C05_graph_open_image, C05_map_open_image; C05_store_open_image_partial for [graphLayout, mapLayout]). Tie: generated histories on Db, DbFile, DbMemory and DbAny(x3) with reopen / optimize / "
                    "shrink_to_fit / backup+open / copy / rename / reopen-as-other-variant interleaved; oracle = deep canonical dump (elements, "
                    "values in order, aliases, indexes, index searches in result order, BFS/DFS in both directions from every node, keys, key counts) "
                    "before == after."),
-    "level_note": ("Category other: MultiMapStorage's hash table, DbGraph, DbIndexes, DbKeyValues layouts and the byte-level read_records "
-                   "(C04_reopen, group storage) are not modelled; for them the property is validated by the stream and oracle only."),
+    "level_note": ("Category other: DbIndexes, DbKeyValues (vectors of storage indexes of variable-size values), the database root DbStorageIndex and the "
+                   "byte-level read_records (C04_reopen, group storage) are not modelled in this project; what graph and multimap compute FROM their slot "
+                   "vectors is C08_arrays_refine / MultiMap_refines (other projects, composed by hand, not by Lean import); the composite layout "
+                   "theorems are tied to the code only at observation level (the stream's before/after deep dump), not slot by slot."),
     "technique": "Lean 4 frame lemma + layout round-trip lemma; before/after full-dump differential on all database variants",
     "design_ref": "DESIGN.md §6 C05",
     "assumptions": ["C04: structures read storage only through index -> bytes (Storage::value*)",
